@@ -7,7 +7,7 @@
                        are within the range of the DSDL element type.
    db_wok db : what pydsdl guarantees of every type database (a union has options, signed widths <= 64). *)
 From Coq Require Import List NArith ZArith Bool.
-From Verif Require Import PyObj Gen_PyObj Gen_Pin_c18support PyObjThm PyObjThmRt PyObjThmRt2 PyObjThmWrap PyObjThmStart PyObjThmMut PyObjThmRound PyObjThmRepr PyObjThmRun PyObjLaws PyModelAttr
+From Verif Require Import PyObj Gen_PyObj Gen_Pin_c18support PyObjThm PyObjThmRt PyObjThmRt2 PyObjThmWrap PyObjThmStart PyObjThmMut PyObjThmRound PyObjThmRepr PyObjThmRun PyObjLaws PyModelAttr PyObjThmReject
   Gen_Pin_c18model.
 Import ListNotations.
 Open Scope Z_scope.
@@ -122,6 +122,78 @@ Print Assumptions C18_array_src_checked_ndarray.
 
 Theorem C18_tmpl_live : tmpl_gen = set_precheck (t_arr_precheck tmpl_gen) tmpl_gen.
 Proof. exact tmpl_live. Qed.
+
+(* FIX-STATE OBLIGATIONS.  The landed fixes are REQUIRED: reverting F-PY-ARRELEM / F-PY-ARRWRAP / F-PY-ARRWRAP-FPREC in base.j2 makes the
+   scanner emit the other value and this example (hence the check) fails -- not only the KNOWN-FINDING line changes. *)
+Example C18_fix_flags_live :
+  arrelem_quirk_gen = false /\ t_arr_precheck tmpl_gen = true /\ arr_precheck_exact_gen = true.
+Proof. repeat split; reflexivity. Qed.
+
+(* F-PY-NUMTEXT and F-PY-PRECHECK-INFER are fixed in /repo (4403124): the text guard and the ndarray-only float arm are REQUIRED too;
+   together with C18_tmpl_live3 this makes TGf below (all source-check facts set) equal to tmpl_gen: C18_TGf_is_tmpl_gen *)
+Example C18_open_findings_state : t_text_guard tmpl_gen = true /\ t_precheck_nd_only tmpl_gen = true.
+Proof. split; reflexivity. Qed.
+
+(* with the landed fixes the statements about `set_precheck true tmpl_gen` ARE statements about tmpl_gen *)
+Theorem C18_array_src_checked_live : forall q fixed cap w dt' zs v, 1 <= w <= 64 -> dtype_eqb dt' (DU (pwd pick_width_gen w)) = false ->
+  assign_array tmpl_gen pick_width_gen q fixed cap false (EPrim (KU w)) (PArr dt' (map PInt zs)) = Ok v ->
+  v = PArr (DU (pwd pick_width_gen w)) (map PInt zs) /\ Forall (fun z => urange w z = true) zs.
+Proof.
+  destruct C18_fix_flags_live as (_ & P & _). rewrite tmpl_live, P. exact array_src_checked_nowrap.
+Qed.
+Print Assumptions C18_array_src_checked_live.
+
+(* REJECT DIRECTION for arrays.  TGf = tmpl_gen with the three source-check facts of the fixes (pre-check, float arm for ndarrays only,
+   text guard) set; it IS tmpl_gen once C18_open_findings_state is flipped (tmpl_live3).  For EVERY array field and EVERY candidate value
+   assign_array either stores a value that satisfies the contract or raises, and it raises exactly when `arr_accepts` is false:
+   bytes (incl. the implicit str.encode of string-like arrays): accepted iff the element type is uint<=8, the number of bytes is legal
+   and every byte is within the DSDL range -- for ALL texts, numeric-looking or not; str / bytes for other arrays: never; same-dtype
+   ndarray: length + DSDL range; anything else: NumPy converts it, source range check, legal length, float range, DSDL range. *)
+Theorem C18_array_accept_exact : forall fixed cap sl e x,
+  (exists v, assign_array TGf pick_width_gen false fixed cap sl e x = Ok v) <-> arr_accepts fixed cap sl e x = true.
+Proof. exact array_accept_exact. Qed.
+Print Assumptions C18_array_accept_exact.
+
+Theorem C18_array_reject_exact : forall fixed cap sl e x,
+  (exists ex, assign_array TGf pick_width_gen false fixed cap sl e x = Raise ex) <-> arr_accepts fixed cap sl e x = false.
+Proof. exact array_reject_exact. Qed.
+Print Assumptions C18_array_reject_exact.
+
+Theorem C18_array_accept_sound : forall db fixed cap sl e x v, ftype_wok (FArr fixed cap sl e) = true ->
+  wfv pick_width_gen db true x = true -> assign_array TGf pick_width_gen false fixed cap sl e x = Ok v ->
+  field_ok pick_width_gen true (FArr fixed cap sl e) v = true /\ wfv pick_width_gen db true v = true /\ is_none v = false.
+Proof. exact array_accept_sound. Qed.
+Print Assumptions C18_array_accept_sound.
+
+Theorem C18_bytes_reject_exact : forall fixed cap sl w s, 1 <= w <= 8 ->
+  assign_array TGf pick_width_gen false fixed cap sl (EPrim (KU w)) (PBytes s) =
+  if lenG fixed (length s) cap && forallb (fun c => Z.of_N (c mod 256) <=? 2 ^ w - 1) s
+  then Ok (PArr (DU 8) (map (fun c => PInt (Z.of_N (c mod 256))) s)) else Raise ValueError.
+Proof. exact bytes_reject_exact. Qed.
+Print Assumptions C18_bytes_reject_exact.
+
+Theorem C18_text_never_parsed : forall fixed cap sl e s, fast_bytesG e = false ->
+  assign_array TGf pick_width_gen false fixed cap sl e (PBytes s) = Raise ValueError /\
+  assign_array TGf pick_width_gen false fixed cap sl e (PStr s) = Raise ValueError.
+Proof. exact text_never_parsed. Qed.
+Print Assumptions C18_text_never_parsed.
+
+(* a finite float16/float32 element beyond the maximum raises, for every list of Python floats (audit row 4) *)
+Theorem C18_float_list_reject : forall fixed cap sl w bs, w < 64 ->
+  forallb (fun b => f_in_range w b || negb (f_isfinite b)) bs = false ->
+  exists ex, assign_array TGf pick_width_gen false fixed cap sl (EPrim (KF w)) (PList (map PFloat bs)) = Raise ex.
+Proof. exact float_list_reject. Qed.
+Print Assumptions C18_float_list_reject.
+
+(* the reject characterisation above is about the code in /repo *)
+Theorem C18_TGf_is_tmpl_gen : TGf = tmpl_gen.
+Proof.
+  destruct C18_fix_flags_live as (_ & P & _). destruct C18_open_findings_state as (G & N).
+  rewrite tmpl_live3 at 2. rewrite P, G, N. reflexivity.
+Qed.
+
+Theorem C18_tmpl_live3 : tmpl_gen = set_text_guard (t_text_guard tmpl_gen) (set_nd_only (t_precheck_nd_only tmpl_gen) (set_precheck (t_arr_precheck tmpl_gen) tmpl_gen)).
+Proof. exact tmpl_live3. Qed.
 
 (* a raising property setter leaves the object as it was *)
 Theorem C18_reject_means_unchanged : forall q db tid o i e o' ex,
@@ -252,7 +324,10 @@ Proof. exact assign_array_with_ok. Qed.
 Print Assumptions C18_assign_array_from_laws.
 
 (* `_MODEL_`: the class attribute is `_restore_constant_(<literals emitted by filter_pickle>)`; under the four library laws (explicit
-   premises) it is the pydsdl object the generator pickled.  The shapes of filter_pickle, _restore_constant_ and of the two `_MODEL_`
+   premises) it is the object the generator pickled -- where `pickle` stands for the _ModelPickler of filter_pickle, whose reducer resets
+   pydsdl's memoization wrappers and maps every source path to the PurePosixPath relative to the parent of its root namespace directory
+   (/repo b86b49b): `m` here is the source model MODULO that path mapping; the run checks for every type that
+   `_MODEL_.source_file_path` is exactly that relative PurePosixPath and that everything else equals the source model.  The shapes of filter_pickle, _restore_constant_ and of the two `_MODEL_`
    template lines are pinned (C18_model_shape_pinned); equality with the SOURCE model is compared on the real classes at every run. *)
 Theorem C18_model_attr_restored : forall (model bytes : Type) (pickle : model -> bytes) (unpickle : bytes -> model)
     (gz gunz : bytes -> bytes) (b85enc : bytes -> list N) (b85dec : list N -> bytes) (strip : list N -> list N),
